@@ -303,7 +303,7 @@ func geometryOf(f featSpec) geom.Geometry {
 	case "multilinestring":
 		return geom.MultiLineString{{{x, 1}, {x + 1, 2}}, {{x, 3}, {x + 1, 4}}}
 	default:
-		return geom.Collection{geom.Point{x, 1}, geom.LineString{{x, 1}, {x + 1, 2}}}
+		return geom.Collection{geom.Point{x, 1}, geom.LineString{{x, 1}, {x + 1, 2}}, geom.Polygon{{{x, 0}, {x + 1, 0}, {x, 1}}}}
 	}
 }
 
@@ -318,6 +318,7 @@ func (s *fakeSource) ReadFeatures(ch chan<- processing.Feature) {
 		for k := 0; k < s.w.SrcYields; k++ {
 			simrt.YieldAs("src", "src:slow")
 		}
+		jitter(s.w.SrcYields)
 		simSleep(s.w.SrcSleepMs)
 		simrt.YieldAs("src", "src:send")
 		ch <- f
@@ -343,6 +344,14 @@ func (s *fakeSource) ReadFeatures(ch chan<- processing.Feature) {
 func simSleep(ms int) {
 	if ms > 0 && simrt.Active() {
 		time.Sleep(time.Duration(ms) * time.Millisecond)
+	}
+}
+
+// jitter: in the free-running pass the extra scheduling points become tiny real pauses, so
+// that stages run at varying relative speeds under the race detector.
+func jitter(k int) {
+	if k > 0 && !simrt.Active() {
+		time.Sleep(time.Duration(k) * 20 * time.Microsecond)
 	}
 }
 
@@ -396,6 +405,7 @@ func (t *fakeTarget) WriteFeatures(ch <-chan processing.Feature) {
 		for k := 0; k < t.h.w.TgtYields; k++ {
 			simrt.YieldAs(name, "tgt:slow")
 		}
+		jitter(t.h.w.TgtYields * (1 + t.id%3))
 		simSleep(t.h.w.RecvSleepMs[strconv.Itoa(t.id)])
 	}
 	// the final flush: real work a target still has to do after its channel closed
@@ -426,6 +436,7 @@ func (h *harness) tableSnap(p geom.Polygon, tmIDs []int) map[int][]geom.Polygon 
 	for k := 0; k < h.w.SnapYields; k++ {
 		simrt.Yield("snap:slow")
 	}
+	jitter(h.w.SnapYields)
 	simSleep(h.w.SnapSleepMs)
 	fid, part := int(p[0][0][0]), int(p[0][0][1])
 	h.mu.Lock()
@@ -1071,8 +1082,11 @@ func racePass(t *testing.T, job *simh.Job, out *simh.Out) {
 		out.Line(map[string]interface{}{"t": "start", "seed": seed})
 		runLog.Reset()
 		w, fp, mp, mapSeed := genWorkload(seed, job.Mix)
-		// the free-running pass gains nothing from simulated slowness
-		w.SnapYields, w.SrcYields, w.TgtYields = 0, 0, 0
+		// in the free-running pass the slowness knobs become tiny real pauses (see jitter);
+		// keep them small and only on short streams
+		if len(w.Features) > 30 {
+			w.SnapYields, w.SrcYields, w.TgtYields = 0, 0, 0
+		}
 		if p := job.Extra["stream"]; p != "" {
 			so, err := simh.OpenOut(p)
 			if err != nil {
